@@ -150,6 +150,13 @@ pub fn consume(resp: Response, plan: &ReadPlan, extra: &[usize], payload_len: us
             }
         }
         ReadPlan::TextUtf8 => Consumed::Text(resp.text_utf8().map_err(|e| format!("{e:?}"))),
+        ReadPlan::TextReader(sizes) => {
+            let sizes = crate::gen::effective_sizes(sizes, payload_len);
+            let mut hist = ReadHist::default();
+            let mut r = resp.text_reader();
+            drive_reads(&mut r, &sizes, extra, &mut hist, max_calls);
+            Consumed::Hist(hist)
+        }
         ReadPlan::Json => Consumed::Json(resp.json::<serde_json::Value>().map_err(|e| format!("{e:?}"))),
     }
 }
